@@ -152,6 +152,7 @@ Section Lin.
   Variable t0 : nat.
   Variable args0 : list value.
   Hypothesis once : pre_every_entry c = false.
+  Hypothesis per_parent : forks_per_parent c = true.
 
   Record LInv (s : state) : Prop := {
     L_forks : forall p pb raw pre e kids f, get s p = Some pb -> j_st pb = SEval raw pre e kids f ->
@@ -320,7 +321,8 @@ Section Lin.
       apply enter_shape in St as (jb & raw & pre & st' & s1 & G & -> & En & [[S PP]|[S ->]]).
       + (* first entry *)
         destruct (entered_raw_pre _ _ _ En) as [R' P'].
-        apply preprocess_spec in PP as [(Pa & -> & ->)|(p & pb & praw & ppre & e & kids & f & Pa & Gp & Sp & -> & ->)].
+        apply preprocess_spec in PP as [(Pa & -> & ->)|(q & pb & praw & ppre & e & kids & f & (p & Pa & Eq) & Gp & Sp & -> & ->)];
+          [|rewrite per_parent in Eq; subst q].
         * (* the root job *)
           apply LInv_upd with (jb := jb); auto.
           -- intros p h. pose proof (uses_set_st s j jb st' p h G) as E. unfold contrib in E. simpl in E.
